@@ -62,7 +62,7 @@ def streams(tier, rng, P, only=None, cases=None):
             return ("violation", "dump did not return normally on a compiler output: " + st + " " + str(f)) if c.get("strict") else None
         if not m[0].startswith("ok holds=1"): return ("violation", "dump text disagrees with the decoded file: " + m[0])
         # a note (or controller, program) placed with TIME(m:b:t) is listed at TIME(m:b:t)
-        if c.get("placed") and not re.search(r"(^|[ ;|\n])t[-+]?\d|t\.|t__|t=", c["src"]):      # (a timing command moves the notes after it off their written position)
+        if c.get("placed") and not re.search(r"(?<![A-Za-z])t[-+]?\d|(?<![A-Za-z])t\.|t__|(?<![A-Za-z])t=|(?<![A-Za-z])t\(", c["src"]):      # (a timing command moves the notes after it off their written position)
             text = unhx(f["text"]).decode("utf-8", "replace")
             first = text.split("// ----- TRACK -----")[1] if "// ----- TRACK -----" in text else text
             for (mm, bb, tt) in c["placed"]:
